@@ -91,7 +91,8 @@ def gen_case(rnd, tier, long=False):
         lo = rnd.randint(0, max(n, 1))
         hi = rnd.randint(lo, max(n, 1) + 1)
         queries.append((b, lo, hi))
-    return {"be": be, "h": h, "ops": ops, "ticks": ticks, "cols": cols, "queries": queries, "pattern": pat}
+    # the caller fills one work column in place and appends it every time (the container must keep the values, not the array)
+    return {"be": be, "h": h, "ops": ops, "ticks": ticks, "cols": cols, "queries": queries, "pattern": pat, "reuse_column": rnd.random() < 0.35}
 
 
 def col_bytes(c):
@@ -115,8 +116,12 @@ def run_impl(c, wd, tag="f"):
     try:
         with contextlib.redirect_stdout(io.StringIO()):
             s = SM.Samples(fname, mode="w", overwrite=True)
+            work = numpy.zeros((c["h"], 1))
             for op in c["ops"]:
-                if op[0] == "append":
+                if op[0] == "append" and c.get("reuse_column"):
+                    work[:, 0] = c["cols"][op[1]]
+                    s.append(work)
+                elif op[0] == "append":
                     s.append(numpy.array(c["cols"][op[1]], dtype=float).reshape(-1, 1))
                 elif op[0] == "flush":
                     s.flush_buffer()
